@@ -253,3 +253,40 @@ func Harness_C18_Rename() {
 		nd.Assert("Rename:outside-path-refused", err != nil && len(rec.paths) == 0)
 	}
 }
+
+// names that climb out of the root and down again into a neighbour — "../" followed by four
+// (thorough: "../../" or "../" followed by five) arbitrary bytes, which reaches directories
+// whose name merely starts like the root's last segment ("/r" vs "/rx/y")
+//
+//verif:shard-quick 8 3
+//verif:shard-thorough 16 4
+func Harness_C18_Neighbours() {
+	root, rec, fs := c18Setup()
+	prefix := "../"
+	n := 4
+	if nd.Thorough() {
+		n = 5
+		if nd.Bool("two-levels-up") {
+			prefix = "../../"
+		}
+	}
+	name := prefix + c18Path("rest", n)
+	var err error
+	switch nd.IntRange("operation", 0, 4) {
+	case 0:
+		_, err = fs.Open(name)
+		c18Check("Open", root, rec, err, name)
+	case 1:
+		_, err = fs.Stat(name)
+		c18Check("Stat", root, rec, err, name)
+	case 2:
+		_, err = fs.Create(name)
+		c18Check("Create", root, rec, err, name)
+	case 3:
+		err = fs.Remove(name)
+		c18Check("Remove", root, rec, err, name)
+	default:
+		err = fs.MkdirAll(name, 0o755)
+		c18Check("MkdirAll", root, rec, err, name)
+	}
+}
